@@ -88,10 +88,12 @@ def r06_2_encode_tuple(ctx):
     W = AbiWorld(ctx)
     f = ctx.model.find_func("_encode_tuple", "pyteal.ast.abi.tuple")
     ctx.analysed(f.fq, "pyteal.ast.abi.bool._consecutive_bool_instance_num", "pyteal.ast.abi.bool._bool_sequence_length")
-    kinds = {"B": ("bool",), "U": ("uint", 64), "b": ("byte",), "S": ("string",), "D": ("darr", ("uint", 16)), "A": ("sarr", ("byte",), 3)}
+    # E = the empty tuple `()`, Z = `byte[0]`: members whose encoding is always empty are still members (they end a bool run)
+    kinds = {"B": ("bool",), "U": ("uint", 64), "b": ("byte",), "S": ("string",), "D": ("darr", ("uint", 16)), "A": ("sarr", ("byte",), 3), "E": ("tuple", ()), "Z": ("sarr", ("byte",), 0)}
     maxlen = 4 if ctx.tier == "quick" else 5
     seqs = [""] + ["".join(p) for L in range(1, maxlen + 1) for p in itertools.product("BUSb" if L > 3 else "BUbSDA", repeat=L)]
     seqs += ["B" * 9, "B" * 8 + "U", "BBSSS", "BBSS", "SBBBBBBBBBS", "UBBBUBS", "SUSUS"]
+    seqs += ["E", "Z", "BEB", "BZB", "BBEBB", "EBB", "BBE", "SEB", "BES", "UEZU", "BEBS", "EE", "SZS"]
     # the same value object may be given for several members (t.set(s, s)): members are positions, not objects
     seqs = [(sq, False) for sq in seqs] + [(sq, True) for sq in ("SS", "SUS", "SSU", "DSD", "SSS", "USBS")]
     for sq, aliased in seqs:
@@ -144,7 +146,12 @@ def r06_2_encode_tuple(ctx):
         if not members:
             ctx.check(isinstance(val, Rec) and val.is_call("Bytes") and val.args == [""], "R06.2", construct, f"the empty tuple must encode to the empty byte string; got {strip(val)}", f.where, fact={})
             continue
-        q.need(isinstance(val, Rec) and val.is_call("Concat"), f"{f.fq}: result is not a Concat(...) but {strip(val)[:80]}")
+        if isinstance(val, Rec) and val.is_call("Bytes") and val.args == [""] and all(not arc4.is_dynamic(m) and arc4.byte_len(m) == 0 for m in members):
+            ctx.ok("R06.2", construct, {"encoding": "empty"}, f.where)  # only always-empty members: the empty string is their encoding
+            continue
+        if not (isinstance(val, Rec) and val.is_call("Concat")):
+            ctx.bad("R06.2", construct, f"{len(members)} member(s) are encoded as {strip(val)[:80]}: the members' own encodings are not part of the result", f.where)
+            continue
         parts = val.args
         # reference
         H = arc4.tuple_head_len(members)
